@@ -342,6 +342,14 @@ pub fn expect(cap: usize, len: usize, act: &Act) -> Exp {
                 post: Post::Consumed,
             };
         }
+        DropBuf => {
+            trace.push(Obs::Unit);
+            return Exp {
+                panics: false,
+                trace,
+                post: Post::Consumed,
+            };
+        }
         Get(i) | NthFront(i) => {
             trace.push(if i < len { Obs::SomeV(t_r(i)) } else { Obs::NoneV });
             return unchanged(trace);
